@@ -233,8 +233,13 @@ def run_case(case):
             r.violation(f'{sig}:user-bounds-recovery:{bucket}', f'{tag}: with user bounds sup|F_fit-F_emp|={d2:.4f} > {band:.4f}',
                         case=case, params=pp)
         # one bound at the true support, the other far away (a one-sided truncation stated with a generous other bound)
+        # (only a bound that is IMMATERIAL for the generating law - at least 3 standard deviations out - may be replaced: moving a
+        # material truncation point away makes the model family a different one, which cannot recover the law; a thorough run
+        # alarmed on exactly that for the members (0, 3) / far-lower and (-2, 0.5) / far-upper, and the clause was narrowed)
         if w >= 1.0:
             for which, (aa, bb) in (('far-upper', (a, b + 50.0 * w)), ('far-lower', (a - 50.0 * w, b))):
+                if (which == 'far-upper' and mem[1] < 3.0) or (which == 'far-lower' and mem[0] > -3.0):
+                    continue
                 far = U.TruncatedGaussian(minimum=aa, maximum=bb)
                 r.tr()
                 try:
